@@ -275,4 +275,11 @@ def search(ctx):
 
 
 def probe(kf):
-    return False
+    """Replay a recorded known finding on the implementation; True if it still fails."""
+    import jsonpath
+
+    pr = kf["probe"]
+    try:
+        return jsonpath.findall(pr["query"], pr["doc_text"]) != pr["expect"]
+    except Exception:  # noqa: BLE001
+        return True
